@@ -150,8 +150,14 @@ class BlockSeries:
                     dimension_names=self.dimension_names,
                 )
 
+            # Index the orders with length-one slices rather than integers: integers
+            # would act as extra advanced indices and could move the axis of a list
+            # index relative to `np.empty(self.shape)[item]`.
+            view_shape = np.empty(self.shape)[item].shape
             packed = BlockSeries(
-                eval=lambda *index: self[item + index].filled(zero),
+                eval=lambda *index: self[item + tuple(slice(i, i + 1) for i in index)]
+                .filled(zero)
+                .reshape(view_shape),
                 shape=(),
                 n_infinite=self.n_infinite,
             )
@@ -159,7 +165,7 @@ class BlockSeries:
                 eval=lambda *index: packed[index[-self.n_infinite :]][
                     index[: -self.n_infinite]
                 ],
-                shape=np.empty(self.shape)[item].shape,
+                shape=view_shape,
                 n_infinite=self.n_infinite,
                 dimension_names=self.dimension_names,
             )
